@@ -398,10 +398,17 @@ class Program:
                 if r < 0.4:
                     new = list(names)
                     rng.shuffle(new)
+                elif r < 0.55 and len(names) >= 2:
+                    # fewer names than columns: the leading columns are renamed positionally, the rest keep name and place
+                    k = rng.randint(1, len(names) - 1)
+                    fresh = [n for n in ["n1", "n2", "n3", "n4", "n5"] if n not in names]
+                    new = fresh[:k] + names[k:]
+                    partial = fresh[:k]
                 else:
                     new = rng.sample(ID_NAMES + ["n1", "n2", "n3", "n4", "n5"], len(names))
+                assigned = locals().get("partial") or new
                 def call():
-                    df.colnames = new
+                    df.colnames = list(assigned)
                 post = ("colnames", new, names)
             elif op in ("copy", "deepcopy", "clear"):
                 call = lambda: getattr(df, op)()
@@ -414,7 +421,18 @@ class Program:
                     call = lambda: df.count(*cols)
                 else:
                     di.USE_NUMBA = False
-                    call = lambda: df.copy().group_by(*cols).aggregate(n=di.count(), m=lambda d: d.nrow)
+                    builtin = self.builtin
+                    def coherent(d):
+                        # the group-wise subset handed to a callback is a data frame too: key and attribute access must agree
+                        for n_ in dict.keys(d):
+                            if n_.isidentifier() and n_ not in builtin:
+                                try:
+                                    if getattr(d, n_) is not d[n_]: return 0
+                                except AttributeError:
+                                    return 0
+                        return 1
+                    call = lambda: df.copy().group_by(*cols).aggregate(n=di.count(), m=lambda d: d.nrow, ok=coherent)
+                    post = ("group-frames-coherent", None, None)
             elif op == "lod_roundtrip":
                 if nrow == 0: return
                 call = lambda: df.to_list_of_dicts().to_data_frame()
@@ -524,6 +542,11 @@ class Program:
                 order_before = [n for n in names if n != name]
                 if list(dict.keys(df)) != order_before:
                     self.mon.violate("C01", f"{op}:order-changed", f"{desc}: {list(dict.keys(df))} expected {order_before}")
+            elif kind == "group-frames-coherent":
+                okc = canon.col_cells(dict.__getitem__(out, "ok")) if isinstance(out, di.DataFrame) and "ok" in dict.keys(out) else []
+                if any(c != ("N", 1) for c in okc):
+                    self.mon.violate("C01", "aggregate:group-frame-column-not-reachable-by-attribute", f"{desc}: inside aggregate callbacks a column of the group-wise frame was not reachable by attribute (columns {names})")
+                self.mon.count("group-frame-checks", len(okc))
             elif kind == "colnames":
                 new, old = name, v
                 for o in old:
